@@ -17,12 +17,13 @@ SPEC = {
         "translator core.go (go/ast): Severity iota block, ParseSeverity and Severity.String switch tables -> Gen/Tables.v",
         "translator ext_C05.go (go/ast of cmd/pint): default value of every cli flag of the root/lint/ci commands, every return statement of "
         "actionLint/actionCI/actionSetup (nil or error, before or after checkRules), normalised shape of the two threshold decisions "
-        "(operator between the CountBySeverity key and the once-assigned parsed --fail-on value, accumulation, final test), exit code of main() -> Gen/C05.v; fails closed",
+        "(operator between the CountBySeverity key and the once-assigned parsed --fail-on value, accumulation, final test), exit code of main(), shape of "
+        "reporter.Summary.CountBySeverity (every report counted once under its own severity, no filter or weight) -> Gen/C05.v; fails closed",
         "correspondence: the real pint binary (lint and ci) on generated files/configs x flag settings x one injected fault per error return "
         "(no path, missing path, bad/missing config, --workers 0, bad log level, unwritable --json/--checkstyle, not a git repository, unknown base branch, "
         "github reporter without token) x pint ci from the base branch (spellings) / on a branch without changes x reporting flags "
-        "(--teamcity, --checkstyle, --require-owner, --show-duplicates): exact exit status, existence and completeness of the --json report vs Model/ExitFlow.v "
-        "evaluated on the severities of pint's own report",
+        "(--teamcity, --checkstyle, --require-owner, --show-duplicates): exit status zero/non-zero vs Model/ExitFlow.v evaluated on the severities of pint's own --json report "
+        "(the report must exist whenever the model says it was submitted; what happens to the report on early errors and which of two failures wins are model facts that are not compared)",
         "modelled not verified from Go source: the ORDER of the stages inside actionLint/actionCI (hand-written in Model/ExitFlow.v, validated by the fault runs and "
         "constrained by the generated return tables), Summary.Report/CountBySeverity; urfave/cli flag parsing, the Go runtime's exit status 2 on panic, JSON encoding are trusted",
     ],
@@ -48,8 +49,9 @@ MANIFEST = {
             "The flow statements are proved with the guard 'verifyOwners does not crash' and REFUTED without it (witness = a genuine pint defect: --require-owner plus a rule "
             "that failed to parse panics with exit status 2 even when nothing is reported). (3) Finite, over Gen/C05.v regenerated from cmd/pint: in actionLint/actionSetup only "
             "the last return is nil, actionCI has exactly one more nil return placed before checkRules, both threshold decisions compare 'severity >= fail-on' with a "
-            "never-reassigned parsed value, main exits 1 on error, the flag defaults are fail-on=bug, min-severity=warning. Tied by the two translators and by running the real "
-            "binary (exact exit status + report existence/completeness) over generated scenarios, a 4x4 severity/fail-on grid incl. severities fixed in built-in checks, one "
+            "never-reassigned parsed value, main exits 1 on error, CountBySeverity counts every report once under its own severity, the flag defaults are fail-on=bug, min-severity=warning. Tied by the two translators and by running the real "
+            "binary (exit status; report present whenever the model says submitted) over generated scenarios, a 4x4 severity/fail-on grid incl. severities fixed in built-in checks, the same issue reported with two different severities (both orders), "
+            "a ci branch deleting a still-referenced rule file and renaming another, one "
             "injected fault per error path, base-branch / no-change ci layouts and reporting flags.",
     "note": "Coq 8.16.1 kernel+VM, no axioms; translators trusted for table extraction; stage order and Summary hand-modelled and validated by differential execution of the "
             "binary (not verified from Go source); cli parsing, panic exit status, JSON encoding trusted. Open known finding C05-require-owner-broken-rule-crash "
